@@ -3,7 +3,7 @@ From Model Require Import Bytes Tables.
 From Spec Require Import SpecTables.
 From Model Require Import Cert KAC.
 From Spec Require Import Wire.
-From Proofs Require Import TableProofs KacProofs.
+From Proofs Require Import TableProofs KacProofs KacRT.
 Open Scope Z_scope.
 
 (* for every one of the 65,536 codes, every lookup the library offers agrees with the
@@ -53,6 +53,14 @@ Theorem C10_key_block_layout : forall (s c : N) (cl sl : nat) pub pad spk extra 
             kc_crypto_size_of (k_kc k) = Z.of_nat (length pub) /\ kc_signing_pubkey_size (k_kc k) = Z.of_nat (length spk).
 Proof. exact spec_identity_accepted. Qed.
 Print Assumptions C10_key_block_layout.
+(* and the serialiser writes the block the same way: key, padding, key *)
+Theorem C10_key_block_serialised : forall kc cl sl pub pad spk,
+  kc_crypto_size_of kc = Z.of_nat cl -> kc_signing_pubkey_size kc = Z.of_nat sl ->
+  (0 < cl <= 256)%nat -> (0 < sl <= 128)%nat ->
+  length pub = cl -> length spk = sl -> length pad = (384 - cl - sl)%nat ->
+  kac_block (mkKAC kc (Some pub) pad (Some spk)) = Ok (pub ++ pad ++ spk).
+Proof. exact kac_block_ok. Qed.
+Print Assumptions C10_key_block_serialised.
 Example C10_nonvacuous : sig_length 7 = Some 64 /\ kc_spk_size 11 = Some 32 /\ kc_crypto_size 4 = Some 32
   /\ sig_length 9 = None /\ off_sig_size 9 = 0.
 Proof. vm_compute. auto. Qed.
